@@ -325,6 +325,34 @@ class Run:
         return ms
 
 
+    def validate_lines(self, trace, stage, module, consts, describe):
+        """generic batch validation: TLC visits every line of trace; rejected lines -> mismatches"""
+        nlines = sum(1 for _ in open(trace))
+        r = self.tlc(module, consts, invariants=("Validate",), name=stage + "-validate", env_extra={"VERIF_TRACE": trace})
+        if r["states"] < nlines:
+            raise ToolingError("%s: TLC visited %d states for %d lines" % (stage, r["states"], nlines))
+        rejected = {}
+        if os.path.exists(r["outfile"]):
+            for line in open(r["outfile"]):
+                line = line.strip()
+                if line:
+                    rj = json.loads(json.loads(line) if line.startswith('"') else line)
+                    rejected[rj["l"]] = rj
+        ms = []
+        sample = None
+        for i, line in enumerate(open(trace), 1):
+            if sample is None:
+                sample = json.loads(line)
+            if i in rejected:
+                ms.append(describe(json.loads(line), rejected[i], i, stage))
+        self.traces += nlines
+        if sample:
+            self.samples.append(sample)
+        self.stages.append({"stage": stage, "flow": "B", "runs": nlines, "rejected": len(rejected)})
+        self.log("validate %s: %d recorded runs, %d rejected" % (stage, nlines, len(rejected)))
+        self.mismatches += ms
+        return ms
+
     def race(self, rounds, goroutines=8, stage="race"):
         """Real goroutines sharing compiled expressions under Go's race detector."""
         binary = self.build(race=True)
